@@ -337,11 +337,17 @@ package collect
 //@   assert uses C15.square-bound
 //@   requires s != nil
 //@   requires[levels-bounded@C15] localLevel <= 100 && (forall k string :: in(s.stressLevels, k) ==> s.stressLevels[k].level <= 100)
+//@   requires[table-keyed-by-node@C15] forall k string :: in(s.stressLevels, k) ==> s.stressLevels[k].key == k
 //@   ensures[bounded] result <= 100
 //@   ensures[own-report-recorded-or-expired] forall k string :: in(s.stressLevels, k) ==> (in(old(s.stressLevels), k) || k == s.hostID)
+// the node's own level as of this recalculation is what its entry says afterwards - whatever the level, zero included
+// (a stale higher entry would keep feeding the cluster level after the node has calmed down)
+//@   ensures[own-report-is-this-recalculation-s-level] in(s.stressLevels, s.hostID) && s.stressLevels[s.hostID].level == localLevel && s.stressLevels[s.hostID].key == s.hostID
+//@   ensures[table-stays-keyed-by-node] forall k string :: in(s.stressLevels, k) ==> s.stressLevels[k].key == k
 //@   ensures[levels-stay-bounded] forall k string :: in(s.stressLevels, k) ==> s.stressLevels[k].level <= 100
 //@   loop 1 invariant[sum-bound] 0 <= availablePeers && 0 <= total && total <= toReal(availablePeers) * 10000
 //@   loop 1 invariant[table] forall k string :: in(s.stressLevels, k) ==> s.stressLevels[k].level <= 100 && (in(old(s.stressLevels), k) || k == s.hostID)
+//@   loop 1 invariant[own-report-stays] s != nil && in(s.stressLevels, s.hostID) && s.stressLevels[s.hostID].level == localLevel && s.stressLevels[s.hostID].timestamp == clockNow(s.Clock) && (forall k string :: in(s.stressLevels, k) ==> s.stressLevels[k].key == k)
 //@   modifies s.stressLevels
 
 // One step of the relief state machine (Monitor mode), as the statement words it.
@@ -354,6 +360,7 @@ package collect
 //@   assert callresults 0 <= result && result <= 1.0000001
 //@   requires s != nil
 //@   requires[peer-levels-bounded@C15] forall k string :: in(s.stressLevels, k) ==> s.stressLevels[k].level <= 100
+//@   requires[table-keyed-by-node@C15] forall k string :: in(s.stressLevels, k) ==> s.stressLevels[k].key == k
 //@   let now = clockNow(s.Clock)
 //@   ensures[level-is-larger-of-own-and-cluster] s.overallStressLevel == max(clusterStressLevel, result)
 //@   ensures[level-bounded] result <= 100 && s.overallStressLevel <= 100
